@@ -85,6 +85,25 @@ def handle(tok):
         v, i = cd.parse_val(tok, 2)
         obj.c = v
         return "ok " + cd.hx(guarded(obj.to_bytes))
+    if verb == "msg.tx":
+        # msg.tx ver tn fn pwr legacy bursthex -> TxMsg.gen_msg(legacy)
+        import data_msg
+        m = data_msg.TxMsg(fn=int(tok[3]), tn=int(tok[2]), ver=int(tok[1]))
+        m.pwr = int(tok[4])
+        m.burst = bytearray(cd.unhx(tok[6]))
+        return "ok " + cd.hx(bytes(m.gen_msg(tok[5] == "1")))
+    if verb == "msg.rx":
+        # msg.rx ver tn fn rssi toa256 legacy nope modname tsc_set tsc ci bursthex(two's complement soft-bits)
+        import data_msg
+        from array import array
+        m = data_msg.RxMsg(fn=int(tok[3]), tn=int(tok[2]), ver=int(tok[1]))
+        m.rssi, m.toa256 = int(tok[4]), int(tok[5])
+        m.nope_ind = tok[7] == "1"
+        m.mod_type = getattr(data_msg.Modulation, tok[8])
+        m.tsc_set, m.tsc, m.ci = int(tok[9]), int(tok[10]), int(tok[11])
+        raw = cd.unhx(tok[12])
+        m.burst = None if tok[12] == "none" else array('b', [x - 256 if x > 127 else x for x in raw])
+        return "ok " + cd.hx(bytes(m.gen_msg(tok[6] == "1")))
     return "bad-op"
 
 
